@@ -84,7 +84,7 @@ def gridFor (st : St PrivSet) (who : String × String) (dbs tbls : List String) 
     match st.users[ui]? with
     | none => "S-"
     | some u =>
-      let v := (activePrivs implPS st u).view
+      let v := (activePrivs implRaw st u).view
       let cells := dbs.flatMap fun d => tbls.map fun t =>
         String.join ((List.range 31).map fun p => b01 (userHasPrivileges v "" [{ db := d, tbl := t, statics := [p] }])) ++
         outcomeDigit (if t = "" then authCheckNames v "" d "" else authCheckNames v "" d t)
@@ -94,7 +94,7 @@ def gridFor (st : St PrivSet) (who : String × String) (dbs tbls : List String) 
 
 /-- Apply the follow-up statements (run by root) to the raw state. -/
 def continue_ (st : St PrivSet) (cont : List Stmt) : St PrivSet :=
-  cont.foldl (fun st c => (exec implPS st "d" c).1) st
+  cont.foldl (fun st c => (exec implRaw st "d" c).1) st
 
 def gridAll (st : St PrivSet) (sessions : List (String × String)) (dbs tbls : List String) (roles : List (String × String)) : String :=
   " ".intercalate (sessions.map fun w => gridFor (normalizeSt st) w dbs tbls roles)
@@ -114,15 +114,21 @@ def handle (p : List Sexp) : String :=
     | some us, some es, some ss, some dbs, some tbls, some roles, some cont =>
       let a : NState := { users := us, edges := es }
       let obs (s : NState) := observe s cont ss dbs tbls roles
-      let impl := obs (reload false false a)
+      let impl := obs (reloadWith false false false a)
       let spec := obs a   -- the property: the reloaded engine is indistinguishable from the one that persisted
       if impl = spec then answer impl
       else
+        -- attribute the difference to the known defect classes the state belongs to: a class is named
+        -- only if repairing exactly the applicable classes restores the Spec observation
+        let am := hasAmbiguous a ss
+        let mx := hasMixedCase a
+        let ad := hasAdminEdge a
         let region :=
-          if hasAdminEdge a && impl = obs (reload true false a) then "reload_drops_admin_option"
-          else if hasMixedCase a && impl = obs (reload false true a) then "reload_loses_mixed_case_names"
-          else if hasMixedCase a then "reload_loses_mixed_case_names"
-          else if hasAdminEdge a then "reload_drops_admin_option"
+          if am && obs (reloadWith false false true a) = spec then "reload_reorders_matching_accounts"
+          else if mx && obs (reloadWith true false false a) = spec then "reload_loses_mixed_case_names"
+          else if ad && obs (reloadWith false true false a) = spec then "reload_drops_admin_option"
+          else if (am || mx || ad) && obs (reloadWith mx ad am a) = spec then
+            (if am then "reload_reorders_matching_accounts" else if mx then "reload_loses_mixed_case_names" else "reload_drops_admin_option")
           else "-"
         answer impl spec region
     | _, _, _, _, _, _, _ => answer "bad-case"
